@@ -117,7 +117,7 @@ Lemma prog_ok_spawns l : forall g rest c,
 Proof.
   induction l as [|i l IH]; intros g rest c Hs Hr HQ; cbn [map app prog_ok length] in *.
   - apply HQ; [exact Hs|lia].
-  - split; [reflexivity|]. split; [lia|]. split; [reflexivity|]. split; [reflexivity|]. apply (IH _ _ c).
+  - split; [lia|]. split; [reflexivity|]. split; [reflexivity|]. apply (IH _ _ c).
     + apply settled_give. exact Hs.
     + unfold g_give. cbn [g_refs]. unfold setf. rewrite Nat.eqb_refl. lia.
     + exact HQ.
